@@ -3,6 +3,7 @@ package c08
 import (
 	"fmt"
 	"os"
+	"regexp"
 	"sort"
 
 	"github.com/influxdata/kapacitor/alert"
@@ -78,10 +79,13 @@ func openOn(path string, onUpdate func(ns, phase string, ops []rt.TxOp, err erro
 	s.HTTPPostService = hp
 	if err := s.Open(); err != nil {
 		st.DB.Close() // the failure path of the migration may have closed it already
-		return nil, snap, err.Error()
+		return nil, snap, pathRE.ReplaceAllString(err.Error(), "<dir>/")
 	}
 	return s, snap, ""
 }
+
+// scratch paths differ from run to run: keep error texts deterministic
+var pathRE = regexp.MustCompile(`/[^ "]*kvh-c08-[0-9]+/`)
 
 func migState(s *alertservice.Service, topics []string) rt.M {
 	out := rt.M{}
@@ -202,15 +206,11 @@ func RunMig(r *rt.Run) error {
 	}
 	rec(0, nil)
 	sort.SliceStable(all, func(i, j int) bool { return len(all[i]) > len(all[j]) })
-	if !r.Thorough() && len(all) > 60 {
-		// quick: the largest contents first, a deterministic sample
-		all = all[:60]
-	}
 	for _, es := range all {
 		doMig(es, t)
 	}
 	r.Extra["v1_contents"] = len(all)
 	r.Extra["max_entries"] = maxN
-	r.Finish("V1 topic stores (sets of (topic, ID, level) over 2 topics x 2 IDs x 4 levels) migrated by Service.Open on an observed store; for every commit boundary of every namespace during Open the database and the migration's backup file as they stood are copied and a fresh service is opened on the copy, twice; distinct by (V1 content, boundary)", r.Thorough())
+	r.Finish("V1 topic stores (sets of (topic, ID, level) over 2 topics x 2 IDs x 4 levels) migrated by Service.Open on an observed store; for every commit boundary of every namespace during Open the database and the migration's backup file as they stood are copied and a fresh service is opened on the copy, twice; distinct by (V1 content, boundary)", true)
 	return nil
 }
